@@ -23,13 +23,13 @@ def sh(cmd, cwd=None, env=None, timeout=3600):
     return p.returncode, (p.stdout + p.stderr)
 
 
-def do_import(pid, k, wt):
-    name = f'{pid}_{k}'
+def do_import(pid, k, wt, sub='seed', as_k=None):
+    name = f'{pid}_{as_k or k}'
     d = os.path.join(VERIF, 'seeded', name)
     os.makedirs(d, exist_ok=True)
-    shutil.copy(f'{wt}/seed/mutant_{k}.diff', f'{d}/patch.diff')
-    shutil.copy(f'{wt}/seed/demo_{k}.py', f'{d}/demo.py')
-    note = open(f'{wt}/seed/note_{k}.md').read()
+    shutil.copy(f'{wt}/{sub}/mutant_{k}.diff', f'{d}/patch.diff')
+    shutil.copy(f'{wt}/{sub}/demo_{k}.py', f'{d}/demo.py')
+    note = open(f'{wt}/{sub}/note_{k}.md').read()
     open(f'{d}/note.md', 'w').write(note)
     scratch = f'/tmp/sv_{name}'
     sh(f'git -C /repo worktree remove --force {scratch}')
@@ -105,7 +105,7 @@ if __name__ == '__main__':
     if sys.argv[1] == 'status':
         do_status()
     elif sys.argv[1] == 'import':
-        sys.exit(0 if do_import(*sys.argv[2:5]) else 1)
+        sys.exit(0 if do_import(*sys.argv[2:7]) else 1)
     elif sys.argv[1] == 'run':
         tier = 'quick'
         args = sys.argv[2:]
